@@ -51,11 +51,11 @@ OPTIONS = {
 
 
 def universe():
-    u = fixcase.base_universe(fx_bytes=3000, mx=2, rulesets=("all",), rc_rulesets=("all",), jj=300)
+    u = [c for c in fixcase.base_universe(fx_bytes=3000, mx=1, rulesets=("all",), rc_rulesets=("all",), jj=160, cx=1, feu=False) if not c["id"].startswith(("ws:", "qs:")) and not (c["kind"] == "rc" and c["id"].endswith("pass_str|rules=all"))]
     out = []
     for i, c in enumerate(u):
         out.append(c)
-        if i % 2 == 0:
+        if i % 3 == 0:
             d = dict(c)
             d["sections"] = OPTIONS["sections"]
             d["core"] = OPTIONS["core"]
